@@ -31,4 +31,5 @@ let () =
   | "cdir" -> per_line M_cdir.line
   | "cvol" -> per_line M_cvol.line
   | "csess" -> per_line M_csess.line
+  | "csess2" -> per_line M_csess2.line
   | _ -> prerr_endline ("unknown mode " ^ mode); exit 2
